@@ -459,6 +459,19 @@ Proof.
   - congruence.
 Qed.
 
+Lemma insert_permutation x l : Permutation (x :: l) (insert x l).
+Proof.
+  induction l as [|y r IH]; cbn; [apply Permutation_refl|].
+  destruct (String.leb x y); [apply Permutation_refl|].
+  eapply Permutation_trans; [apply perm_swap|]. constructor. exact IH.
+Qed.
+
+Lemma sort_permutation l : Permutation l (sort l).
+Proof.
+  induction l as [|x r IH]; cbn; [constructor|].
+  eapply Permutation_trans; [constructor; exact IH|apply insert_permutation].
+Qed.
+
 (* entries with distinct keys *)
 Lemma insert_kv_comm {B} (x y : string * B) l : fst x <> fst y ->
   insert_kv x (insert_kv y l) = insert_kv y (insert_kv x l).
